@@ -151,8 +151,15 @@ def gen_rank(rnd: random.Random, rank: int, p: Dict[str, Any]) -> Dict[str, Any]
         ev = head + rest
     tr = {"schemaVersion": 1, "distributedInfo": {"backend": "nccl", "rank": rank, "world_size": p["n_ranks"]},
           "traceEvents": ev, "traceName": f"r{rank}.json"}
-    if rnd.random() < 0.3:
+    mode = p.get("base_ns", "some")
+    if mode == "some":
+        if rnd.random() < 0.3:
+            tr["baseTimeNanoseconds"] = 1_700_000_000_000_000_000
+    elif mode == "same":
         tr["baseTimeNanoseconds"] = 1_700_000_000_000_000_000
+    elif mode == "differ":
+        # every rank's profiler recorded its own base time; `ts` values are what they are (one shared shift after loading)
+        tr["baseTimeNanoseconds"] = 1_700_000_000_000_000_000 + rank * rnd.choice([1000, 2_500_000, 4_000_000_017]) + rnd.choice([0, 999])
     if rnd.random() < 0.3:
         tr["deviceProperties"] = [{"id": 0, "name": "GPU", "totalGlobalMem": 1}]
     return tr
@@ -161,6 +168,8 @@ def gen_rank(rnd: random.Random, rank: int, p: Dict[str, Any]) -> Dict[str, Any]
 def gen_fileset(rnd: random.Random, tier: str, big: bool = False) -> Dict[str, Any]:
     """Returns {'params': {...}, 'files': {filename: trace}}"""
     n_ranks = rnd.choice([1, 1, 2, 2, 3, 4] + ([9, 10] if tier == "thorough" and rnd.random() < 0.1 else []))
+    if tier != "thorough" and rnd.random() < 0.05:
+        n_ranks = rnd.choice([9, 10, 11])        # more than 8 ranks: the pool is sized from a sample parse
     ts_mode = rnd.choice(TS_MODES)
     base = rnd.choice([0, 0, 3, 100, 10 ** 6, 2 ** 31 - 50, 1_700_000_000_000_000])
     if ts_mode in ("dyadic", "decimal", "fracts_intdur") and base > 2 ** 40:
@@ -172,7 +181,8 @@ def gen_fileset(rnd: random.Random, tier: str, big: bool = False) -> Dict[str, A
          "trange": rnd.choice([3, 20, 300, 5000]), "vocab": rnd.choice([1, 4, 12]),
          "steps": rnd.choice([0, 0, 0, 1]), "p_complete": rnd.choice([0.55, 0.7, 0.9, 1.0]),
          "shuffle": rnd.random() < 0.4, "per_rank_offset": rnd.choice([0, 0, 1000, -7]),
-         "field_like_args": rnd.random() < 0.3, "odd_labels": rnd.random() < 0.25, "nameless": False}
+         "field_like_args": rnd.random() < 0.3, "odd_labels": rnd.random() < 0.25, "nameless": False,
+         "base_ns": rnd.choice(["some", "some", "same", "differ"])}
     files = {}
     for r in range(n_ranks):
         q = dict(p)
